@@ -301,6 +301,10 @@ class QubitHamiltonian(QubitOperator):
             elif self.up_then_down != other_hamiltonian.up_then_down:
                 raise RuntimeError("Spin ordering must be the same for all QubitHamiltonians.")
 
+        # A plain QubitOperator is accepted as a bare QubitHamiltonian (the parent class only adds its own type)
+        if isinstance(other_hamiltonian, of.QubitOperator) and not isinstance(other_hamiltonian, QubitHamiltonian):
+            other_hamiltonian = qubitop_to_qubitham(other_hamiltonian, None, None)
+
         return super(QubitOperator, self).__iadd__(other_hamiltonian)
 
     def __eq__(self, other_hamiltonian):
